@@ -48,9 +48,9 @@ var conv4Parsers = map[string]bool{
 }
 
 var conv4Allowed = map[string]string{
-	"lib/query.execParseInt":                "BIN_TO_DEC / OCT_TO_DEC / HEX_TO_DEC: the documented reading of a text in another base",
-	"lib/query.EnotationToDec":              "ENOTATION_TO_DEC: the documented reading of an exponential notation",
-	"lib/query.(*StringFormatter).integer":  "the width / precision digits of a FORMAT placeholder, not a value",
+	"lib/query.execParseInt":               "BIN_TO_DEC / OCT_TO_DEC / HEX_TO_DEC: the documented reading of a text in another base",
+	"lib/query.EnotationToDec":             "ENOTATION_TO_DEC: the documented reading of an exponential notation",
+	"lib/query.(*StringFormatter).integer": "the width / precision digits of a FORMAT placeholder, not a value",
 }
 
 func ruleConv4(c *Ctx) {
@@ -95,11 +95,11 @@ func ruleConv4(c *Ctx) {
 // R-LIM-5
 
 var lim5Allowed = map[string]string{
-	"lib/query.(*View).Limit":                   "the interpreter of LIMIT",
-	"lib/query.(*View).Offset":                  "the interpreter of OFFSET",
-	"lib/query.NewInvalidLimitPercentageError":  "prints the expression in the error message",
-	"lib/query.NewInvalidLimitNumberError":      "prints the expression in the error message",
-	"lib/query.NewInvalidOffsetNumberError":     "prints the expression in the error message",
+	"lib/query.(*View).Limit":                  "the interpreter of LIMIT",
+	"lib/query.(*View).Offset":                 "the interpreter of OFFSET",
+	"lib/query.NewInvalidLimitPercentageError": "prints the expression in the error message",
+	"lib/query.NewInvalidLimitNumberError":     "prints the expression in the error message",
+	"lib/query.NewInvalidOffsetNumberError":    "prints the expression in the error message",
 }
 
 func ruleLim5(c *Ctx) {
